@@ -6,5 +6,9 @@ module Nat :
 
   val leb : nat -> nat -> bool
 
+  val ltb : nat -> nat -> bool
+
+  val max : nat -> nat -> nat
+
   val min : nat -> nat -> nat
  end
